@@ -134,6 +134,28 @@ class TermOut(io.TextIOWrapper):
         return n
 
 
+class BufferedTermOut(TermOut):
+    """a block-buffered stream (what sys.stdout is when it is not a tty, or any stream opened with buffering): the terminal sees what was
+    written only when the stream is flushed - a sequence that is written and never flushed has not happened when the context is left"""
+
+    def __init__(self, env):
+        super().__init__(env)
+        self.pending = []
+
+    def write(self, s):
+        self.pending.append(s)
+        return len(s)
+
+    def flush(self):
+        data, self.pending = "".join(self.pending), []
+        if data:
+            TermOut.write(self, data)
+        try:
+            super().flush()
+        except Exception:      # noqa: BLE001
+            pass
+
+
 class Env:
     def __init__(self):
         self.master, self.slave = os.openpty()
@@ -361,10 +383,14 @@ def make_ctx(env, name, flags):
             replacement.calls += 1
         replacement.calls = 0
         return ReplacedSigIntHandler(replacement)
+    out_stream = env.out
+    if flags.get("buffered_out"):
+        out_stream = BufferedTermOut(env)
+        env.keep.append(out_stream)
     if name == "FullscreenWindow":
-        return FullscreenWindow(out_stream=env.out, hide_cursor=bool(flags.get("hide_cursor", True)))
+        return FullscreenWindow(out_stream=out_stream, hide_cursor=bool(flags.get("hide_cursor", True)))
     if name == "CursorAwareWindow":
-        return CursorAwareWindow(out_stream=env.out, in_stream=env.in_stream, hide_cursor=bool(flags.get("hide_cursor", True)),
+        return CursorAwareWindow(out_stream=out_stream, in_stream=env.in_stream, hide_cursor=bool(flags.get("hide_cursor", True)),
                                  keep_last_line=bool(flags.get("keep_last_line", False)),
                                  extra_bytes_callback=(env.keep.append if flags.get("extra_bytes_callback", True) else None))
     raise ValueError(name)
@@ -934,6 +960,13 @@ def cases(tier, seed):
             add(scenario="single", context=name, flags=flags, initial=[size], thread="main", body=body, prefix=len(body), exc=None)
             for p in ((0, 1, 2, len(body)) if (thorough or size == "size0x0") else (1,)):
                 add(scenario="single", context=name, flags=flags, initial=[size], thread="main", body=body, prefix=p, exc="Boom")
+    # (2e) windows writing to a BUFFERED stream: what the terminal has seen when the context is left is what was flushed
+    for name, flags in CONFIGS:
+        if "Window" not in name:
+            continue
+        body = _body_for(name, 0)
+        for p, e in ((len(body), None), (0, None), (1, "Boom"), (len(body), "Boom"), (0, "Boom")):
+            add(scenario="single", context=name, flags=dict(flags, buffered_out=True), initial=[], thread="main", body=body, prefix=p, exc=e)
     # (2c) the terminal goes away while an Input is open
     for flags in ({"sigint_event": True}, {"sigint_event": False}):
         for how in ("hangup", "closed"):
